@@ -1,7 +1,7 @@
 #!/bin/bash
 # refresh_evidence.sh : run every enabled check once (quick tier, default seed) against /repo so that evidence/*.json describes the committed state
 cd "$(dirname "$0")/.." || exit 2
-for id in $(cat harness/ENABLED); do
+for id in ${@:-$(cat harness/ENABLED)}; do
   t0=$(date +%s); out=$(python3 verif.py run $id --tier quick 2>&1); rc=$?
   echo "$id rc=$rc $(( $(date +%s)-t0 ))s :: $(echo "$out" | grep -E "tier=quick|VIOLATION|HARNESS" | tail -2 | tr '\n' ' ' | cut -c1-220)"
 done
